@@ -906,7 +906,7 @@ def c10(r):
     thorough = r.tier == "thorough"
     r.rule = ("TLC model-checks MC_BaZi (SameSlot is an equivalence over the hour marks of a 3-day window with 37 / 39 classes for the two "
               "day-boundary conventions; both halves of the rat slot share day and hour pillar under the early-rat convention). Lookups: "
-              "for base years {1900 (default), 1800, 1984, 2000} and %s, ~170 moments per year: each Jie instant, +-1 s, +-1 min, the start, "
+              "for base years {1900 (default), 1800, 1984, 2000, 1500 (Julian era)} and %s, ~170 moments per year: each Jie instant, +-1 s, +-1 min, the start, "
               "middle and end of its two-hour slot and of the neighbouring slots, 23:00 / 23:59:59 / 00:00 / 00:59:59 around seeded midnights, "
               "random moments; both conventions; the three entry points. TLC checks soundness (every result has the query pillars and is not "
               "before the base year), strict order, completeness (a result in the query's slot). Distinct non-trivial case = distinct (moment, convention, base)." %
